@@ -1,4 +1,4 @@
-SPECIFICATION Spec
+SPECIFICATION FairSpec
 CONSTANTS
   StepCount = 2
   MaxScen = 2
@@ -10,14 +10,9 @@ CONSTANTS
   FixSetup = TRUE
   FixWorst = TRUE
   AllowStop = TRUE
-  AllowCtrlC = TRUE
+  AllowCtrlC = FALSE
   AllowError = TRUE
   AliveCheck = TRUE
 INVARIANT ProtocolOK
-INVARIANT ClosedAtEnd
-INVARIANT NoProblemLost
-INVARIANT AtMostOneRequestAfterStop
-INVARIANT AtMostOneScenarioAfterStop
-INVARIANT StepsBounded
-INVARIANT FailureLimit
+PROPERTY Termination
 CHECK_DEADLOCK FALSE
